@@ -23,12 +23,15 @@ Quick == {Cfg(st, t, a, per, d) : st \in {Once(1), Once(2), <<0, 1>>}, t \in 0..
 QuickStart == {Cfg(st, 2, a, per, FALSE) : st \in {<<0, 1, 2>>, <<0, 0, 1>>}, a \in {-1, 1, 3}, per \in BOOLEAN}
               \cup {Cfg(Once(3), 1, a, per, FALSE) : a \in {-1, 1}, per \in BOOLEAN}
               \cup {Cfg(<<1, 1>>, t, a, per, FALSE) : t \in {1, 2}, a \in {-1, 1, 3}, per \in BOOLEAN}
-\* thorough family: N <= 3, T <= 3, A <= 4 (shared) / larger ammo bounds for per-instance tokens
-Large == {Cfg(st, t, a, per, d) : st \in Startups, t \in 0..3, a \in {-1, 0, 1, 2, 3, 4, 7},
+\* thorough family: <= 2 instances with T <= 3, A <= 4 | 7, all modes; 3 instances: shared T <= 3, per-instance T <= 2
+\* (measured: one 3-instance per-instance configuration with T = 2 has 97 k states, shared T = 3 has 45 k)
+Large == {Cfg(st, t, a, per, d) : st \in {Once(1), Once(2), <<0, 1>>, <<1, 1>>}, t \in 0..3, a \in {-1, 0, 1, 2, 3, 4, 7},
                                   per \in BOOLEAN, d \in BOOLEAN}
-\* the M2 matrix: everything released at once (the real engine runs these with once(n) startup)
-Matrix == {Cfg(Once(n), t, a, per, d) : n \in 1..3, t \in 0..3, a \in {-1, 0, 1, 2, 3, 4, 5, 7},
-                                        per \in BOOLEAN, d \in BOOLEAN}
+         \cup {Cfg(st, t, a, FALSE, FALSE) : st \in {Once(3), <<0, 1, 2>>, <<0, 0, 1>>}, t \in 0..3, a \in {-1, 1, 2, 3, 4}}
+         \cup {Cfg(st, t, a, TRUE, FALSE) : st \in {Once(3), <<0, 1, 2>>, <<0, 0, 1>>}, t \in 0..2, a \in {-1, 2, 4}}
+         \cup {CfgU(st, tm, a, per, d) : st \in {Once(2), <<0, 1>>}, tm \in {0, 1, 2}, a \in {-1, 2, 4},
+                                         per \in BOOLEAN, d \in BOOLEAN}
+         \cup {CfgU(<<0, 0, 1>>, 1, a, per, FALSE) : a \in {-1, 2}, per \in BOOLEAN}
 \* negative controls need only a few configurations
 NegCfgs == {Cfg(st, 2, a, per, TRUE) : st \in {Once(2), <<0, 1>>, <<0, 1, 2>>}, a \in {-1, 1, 3, 5}, per \in BOOLEAN}
 NegCfgsU == {CfgU(Once(2), 2, a, FALSE, FALSE) : a \in {-1, 3}}
